@@ -60,6 +60,7 @@ type Contract struct {
 	Pure     bool
 	Expect   map[string]bool
 	Defs     []string
+	Spawns   []string // goroutine functions the function may start (frame/goroutines)
 	used     bool
 }
 
@@ -389,6 +390,8 @@ func (cs *ContractSet) loadFile(path string, pkgPath string) error {
 			cur.Pure = true
 		case "defs":
 			cur.Defs = append(cur.Defs, f[1:]...)
+		case "spawns":
+			cur.Spawns = append(cur.Spawns, f[1:]...)
 		case "requires", "ensures", "ensures_on_panic":
 			cl, err := mk(head, rest)
 			if err != nil {
